@@ -406,3 +406,69 @@ def r20_6(ctx):
         ok = src is not None and "self.constraints" in src and "[0]" in src.replace(" ", "") and "res" not in {x.id for x in ast.walk(ast.parse(src)) if isinstance(x, ast.Name)}
         ctx.check(ok, "the chain is taken apart before placeholder substitution", detail="after substitution the chain is already folded into one number", expected="<splitter>(c[0] of self.constraints)",
                   found="%s <- %s" % (ast.unparse(c)[:60], src), fi=f, node=c)
+
+
+@rule("R20.7", min_instances=3, desc="the chain splitter returns the right links: lb <= (g <= ub) stands for lb <= g and g <= ub, (lb <= g) <= ub likewise (the middle operand is compared with both ends)")
+def r20_7(ctx):
+    P = ctx.prog
+    sps = _chain_splitters(P)
+    if not sps:
+        raise AnalysisError("no chain splitter found (R20.6 reports its absence)")
+    for f in sps:
+        sc = ctx.scope(f)
+
+        def expand(x):
+            """operand text with local aliases (a = e.dep(0), ...) expanded down to dep-paths of the argument"""
+            if isinstance(x, ast.Name):
+                v = sc.reaching(x.id, x)
+                if v is not None:
+                    return expand(v)
+                ds = [d for d in sc.defs.get(x.id, []) if d.kind in ("assign", "unpack")]
+                # a, b = e.dep(0), e.dep(1)
+                for d in ds:
+                    st = d.stmt
+                    if isinstance(st, ast.Assign) and isinstance(st.targets[0], ast.Tuple) and isinstance(st.value, ast.Tuple):
+                        for t, v in zip(st.targets[0].elts, st.value.elts):
+                            if isinstance(t, ast.Name) and t.id == x.id:
+                                return expand(v)
+                return x.id
+            if isinstance(x, ast.Call) and isinstance(x.func, ast.Attribute) and x.func.attr == "dep" and len(x.args) == 1:
+                return "%s.dep(%s)" % (expand(x.func.value), ast.unparse(x.args[0]))
+            if isinstance(x, ast.Call) and isinstance(x.func, ast.Name) and x.func.id == "MX" and len(x.args) == 1:
+                return expand(x.args[0])
+            return ast.unparse(x)
+
+        def link(x):
+            """('cmp', left, right) for a rebuilt comparison, ('sub', path) for a sub-expression handed on as it is"""
+            if isinstance(x, ast.Compare) and len(x.ops) == 1:
+                return ("cmp", expand(x.left), expand(x.comparators[0]))
+            if isinstance(x, ast.Call) and len(x.args) == 2 and not x.keywords and not (isinstance(x.func, ast.Attribute) and x.func.attr == "dep"):
+                return ("cmp", expand(x.args[0]), expand(x.args[1]))
+            return ("sub", expand(x))
+        arg = f.params[0]
+        rets = [r for r in walk_no_nested(f.node) if isinstance(r, ast.Return) and isinstance(r.value, ast.List)]
+        E = None
+        two = [r for r in rets if len(r.value.elts) == 2]
+        if len(two) < 2:
+            raise AnalysisError("%s: expected a two-link return for the right-nested and for the left-nested chain" % f.qualname)
+        seen = {"right": False, "left": False}
+        for r in two:
+            l0, l1 = link(r.value.elts[0]), link(r.value.elts[1])
+            # the root the dep-paths hang on
+            roots = {t.split(".dep(")[0] for l in (l0, l1) for t in l[1:]}
+            root = roots.pop() if len(roots) == 1 else None
+            ok = False
+            form = None
+            if root is not None:
+                A, B = root + ".dep(0)", root + ".dep(1)"
+                if l1 == ("sub", B):          # lb <= (g <= ub): [lb <= g, (g <= ub)]
+                    form = "right"
+                    ok = l0 == ("cmp", A, B + ".dep(0)")
+                elif l0 == ("sub", A):        # (lb <= g) <= ub: [(lb <= g), g <= ub]
+                    form = "left"
+                    ok = l1 == ("cmp", A + ".dep(1)", B)
+            if form:
+                seen[form] = True
+            ctx.check(ok, "%s %s-nested chain: the middle operand is compared with both ends" % (f.name, form or "?"), detail="a link compares the wrong operands: a false bound of a constant two-sided constraint goes unnoticed",
+                      expected="[lb <= g, (g <= ub)] for lb <= (g <= ub); [(lb <= g), g <= ub] for (lb <= g) <= ub", found="[%s, %s]" % (l0, l1), fi=f, node=r)
+        ctx.check(all(seen.values()), "%s handles both nestings of a chain" % f.name, detail="one nesting is not taken apart", expected="right- and left-nested", found=str(seen), fi=f)
